@@ -154,6 +154,7 @@ class Edits:
             self.replace[k] = ""
 
 
+DERIVE_KEEP = ["Debug", "Default", "Clone", "PartialEq", "Eq"]
 LOG_MACROS = ("debug", "info", "error", "warn", "trace")
 DROP_ATTR_PREFIXES = ("#[tracing::instrument", "#[allow(clippy", "#[error(", "#[from]", "#[source]", "#[serde", "#[clap")
 
@@ -175,7 +176,7 @@ def rule_attrs(toks, lo, hi, edits, log):
                     log("R-derive: dropped attribute %s" % flat[:40])
                 elif flat.startswith("#[derive("):
                     names = [x.strip() for x in a[a.index("(") + 1:a.rindex(")")].split(",") if x.strip()]
-                    keep = [x for x in names if x in ("Debug", "Default", "Clone", "PartialEq", "Eq")]
+                    keep = [x for x in names if x in DERIVE_KEEP]
                     if keep != names:
                         log("R-derive: derive(%s) -> derive(%s)" % (",".join(names), ",".join(keep)))
                     edits.delete(i, e + 1)
@@ -799,7 +800,14 @@ class Generator:
             if is_canary:
                 # rename and add `ensures false`
                 j = next_sig(toks, it.kw + 1, it.end)
-                edits.replace[j] = toks[j].text + "__canary"
+                if edits.replace.get(j) == "":
+                    # a rewrite rule replaced the signature text: rename inside the replacement
+                    for k_, lst in edits.before.items():
+                        for n_, (t_, o_) in enumerate(lst):
+                            if re.search(r"\bfn %s\b" % re.escape(toks[j].text), t_):
+                                lst[n_] = (re.sub(r"\bfn %s\b" % re.escape(toks[j].text), "fn %s__canary" % toks[j].text, t_), o_)
+                else:
+                    edits.replace[j] = toks[j].text + "__canary"
                 if blk is None:
                     self._insert_sig_clauses(it, edits, [("ensures", "canary", "false", None)], fnpath + "#canary", blk)
             if is_canary:
@@ -1011,6 +1019,8 @@ class Generator:
 
 
 def generate(unit, outdir):
+    global DERIVE_KEEP
+    DERIVE_KEEP = unit.get("derive_keep", ["Debug", "Default", "Clone", "PartialEq", "Eq"])
     g = Generator(unit)
     g.out.add(unit.get("header", ""), None)
     g.out.add("verus! {\n", None)
